@@ -8,8 +8,11 @@ ifEnd`, `whileBegin/whileEnd`, `forBegin/forEnd`, `point` for MUDUO_VERIF_POINT,
 scope, `while` vs `if` around a wait, the condition waited on, notify vs notifyAll, the position of a
 notify relative to the mutation and reads outside the lock are all visible in the token order;
 (b) every `while`/`if` condition translated through a per-class symbol map into a Lean `Prop` guard
-`<method>_g<i>` that the model calls.  The model declares the skeleton it implements
-(Model/Monitor.lean `Declared.*`); Proofs/MonitorTie.lean shows them equal by `decide`.
+`<method>_g<i>` that the model calls.  The transition systems (Model/Monitor.lean, Model/TPool.lean)
+read what a method does off its skeleton (`waitOf`: is there a wait, `while` or `if`, on which condition;
+`notifsOf`: which notify/notifyAll, in order) and call the generated guards; Proofs/MonitorTie.lean and
+Proofs/TPoolTie.lean declare the skeleton the proofs are about (`Declared.*`) and show the extracted one
+equal to it by `decide`.
 """
 import os
 
